@@ -721,6 +721,10 @@ func registerStdIntrinsics(c func(string, intrinsicImpl)) {
 		m.clock += 1000
 		return m.c.BVConst(64, uint64(m.clock))
 	})
+	c("time.After", func(m *Machine, fr *frame, args []value) value {
+		// a timer channel: it fires exactly when a select would otherwise block (no other case ready)
+		return &chanV{cap: 1, timer: true}
+	})
 	c("time.AfterFunc", func(m *Machine, fr *frame, args []value) value {
 		// timer never fires unless the harness fires it
 		var v value = m.zero(deref(fr.fn.Signature.Results().At(0).Type()))
